@@ -955,6 +955,18 @@ def m_vec_push(ex, st, callee, args, dest_ty):
         yield st2, UNIT
 
 
+def m_vec_append(ex, st, callee, args, dest_ty):
+    """Vec::append(&mut self, &mut other): moves all items of `other` to the end of `self`, leaving `other` empty"""
+    r, o = _base_ref(ex, st, args[0]), _base_ref(ex, st, args[1])
+    v, w = _vec_at(ex, st, r), _vec_at(ex, st, o)
+    for st1, n in ex.enum_values(st, v.len, limit=len(v.items) + 2):
+        for st2, m in ex.enum_values(st1, w.len, limit=len(w.items) + 2):
+            v2, w2 = _vec_at(ex, st2, r), _vec_at(ex, st2, o)
+            ex.write(st2, r.cell, r.projs, VecV(z3.IntVal(n + m), tuple(v2.items[:n]) + tuple(w2.items[:m]), v2.elem_ty))
+            ex.write(st2, o.cell, o.projs, VecV(z3.IntVal(0), (), w2.elem_ty))
+            yield st2, UNIT
+
+
 def m_vec_insert(ex, st, callee, args, dest_ty):
     r = _base_ref(ex, st, args[0])
     v = _vec_at(ex, st, r)
@@ -1201,6 +1213,7 @@ BASE_MODELS = [
     (R(r"^Vec::<.*>::len$|^core::slice::<impl \[.*\]>::len$"), m_vec_len),
     (R(r"^Vec::<.*>::is_empty$|^core::slice::<impl \[.*\]>::is_empty$"), m_vec_is_empty),
     (R(r"^Vec::<.*>::push$"), m_vec_push),
+    (R(r"^Vec::<.*>::append$"), m_vec_append),
     (R(r"^Vec::<.*>::insert$"), m_vec_insert),
     (R(r"^Vec::<.*>::pop$"), m_vec_pop),
     (R(r"^<Vec<.*> as Index<usize>>::index$|^<\[.*\] as Index<usize>>::index$"), m_vec_index),
